@@ -194,6 +194,12 @@ pub fn c33_async_case(src: &mut Src, obs: &mut Obs) -> CaseResult {
     Ok(())
 }
 
+struct Warmup;
+#[zbus::interface(name = "gen.Warmup")]
+impl Warmup {
+    fn nop(&self) {}
+}
+
 /// blocking proxies: real threads (the library's executor threads on both connections) over a
 /// socket pair; a hang shows as the client's method timeout and is reported as inconclusive
 pub fn c33_blocking_case(src: &mut Src, obs: &mut Obs) -> CaseResult {
@@ -208,7 +214,10 @@ pub fn c33_blocking_case(src: &mut Src, obs: &mut Obs) -> CaseResult {
     }
     // both ends have to be built concurrently (they shake hands)
     let g2 = guid.clone();
-    let srv = std::thread::spawn(move || zbus::blocking::connection::Builder::unix_stream(s0).server(g2).and_then(|b| b.p2p().build()));
+    // (an interface given to the builder starts the object server before the connection takes in
+    // anything: the way the library's documentation recommends, and free of the on-demand start-up
+    // race that is C30's known finding)
+    let srv = std::thread::spawn(move || zbus::blocking::connection::Builder::unix_stream(s0).server(g2).and_then(|b| b.p2p().serve_at("/warmup", Warmup)).and_then(|b| b.build()));
     let client = zbus::blocking::connection::Builder::unix_stream(s1).p2p().method_timeout(std::time::Duration::from_secs(20)).build();
     let server = srv.join().map_err(|_| Failure::new("harness: server thread"))?;
     let (server, client) = match (server, client) {
@@ -221,9 +230,6 @@ pub fn c33_blocking_case(src: &mut Src, obs: &mut Obs) -> CaseResult {
     let (l2, f) = (log.clone(), e.register);
     let sc: Connection = server.inner().clone();
     zbus::block_on(async move { f(sc.object_server(), "/gen".to_string(), l2).await }).map_err(|x| Failure::new(format!("registering failed: {x}")))?;
-    // The object server starts taking calls a moment after its creation (known finding of C30: a
-    // call taken in before its dispatch task first ran is lost); that is not what is examined here.
-    std::thread::sleep(std::time::Duration::from_millis(30));
     let mut model: Vec<RVal> = e.props.iter().map(|p| (p.init)()).collect();
     let nops = 1 + src.below(4);
     let mut history = vec![];
